@@ -51,7 +51,9 @@ REQUIRED_LABELS = {
         "q:stochastic_binary", "q:quantized_tanh", "q:quantized_sigmoid",
         "q:quantized_ulaw", "q:quantized_linear", "q:bernoulli", "string_form",
         "merge", "masked_conv", "canonical", "hyp", "frozen_layer",
-        "bn_no_affine", "gru_reset_after"],
+        "bn_no_affine", "gru_reset_after", "stock_act:hard_sigmoid",
+        "stock_act:sigmoid", "stock_act:tanh", "stock_act:softmax",
+        "L:Dense", "L:Conv2D", "L:LSTM", "L:BatchNormalization"],
     "thorough": ["L:" + c for c in _LAYERS] + [
         "route_ok:json", "route_ok:clone", "route_ok:h5", "pred_compared",
         "q:quantized_hswish", "lossy", "api:predict", "masked_conv", "merge",
@@ -378,6 +380,10 @@ def oracle_case(ctx, case, extra_labels=()):
       labs.append("masked_conv")
     if ld.get("kw", {}).get("trainable") is False:
       labs.append("frozen_layer")
+    if not ld["cls"].startswith("Q"):
+      for an in ("activation", "recurrent_activation"):
+        if ld.get("kw", {}).get(an):
+          labs.append("stock_act:" + ld["kw"][an])
     if ld["cls"] == "QBatchNormalization" and ld["kw"].get("center") is False and (
         ld["kw"].get("scale") is False):
       labs.append("bn_no_affine")
